@@ -411,6 +411,80 @@ def oracle(ctx: Ctx, per: int):
                     pass
 
 
+def default_mode_replies(ctx: Ctx) -> None:
+    """The stack as a Gateway builds it (QoS neither forced on nor off): the exchanges the library itself waits on -- schedule fragments read and
+    WRITTEN, fault-log entries, the schedule change counter -- sent with wait_for_reply through the REAL PortProtocol; the reply comes 50 ms after
+    the echo.  send_cmd must hand back the reply (the packet with the command's rx_header), not the echo."""
+    import asyncio  # noqa: PLC0415
+
+    from ramses_tx import exceptions as exc  # noqa: PLC0415
+    from ramses_tx.command import Command  # noqa: PLC0415
+    from ramses_tx.packet import Packet  # noqa: PLC0415
+    from ramses_tx.protocol import PortProtocol  # noqa: PLC0415
+    from ramses_tx.typing import QosParams  # noqa: PLC0415
+
+    CTL = "01:145038"
+    frag = "7881EB".ljust(40, "0")
+    cmds = [(Command.set_schedule_fragment(CTL, "03", 1, 3, frag), f" I --- {CTL} {GW} --:------ 0404 007 03200008000103"),
+            (Command.set_schedule_fragment(CTL, "03", 3, 3, frag), f" I --- {CTL} {GW} --:------ 0404 007 03200008000300"),
+            (Command.set_schedule_fragment(CTL, "HW", 1, 1, frag), f" I --- {CTL} {GW} --:------ 0404 007 00230008000100"),
+            (Command.get_schedule_fragment(CTL, "03", 1, 0), f"RP --- {CTL} {GW} --:------ 0404 010 032000080301037881EB"),
+            (Command.get_system_log_entry(CTL, 2), f"RP --- {CTL} {GW} --:------ 0418 022 004002B0060804000000CB955F71FFFFFF70001283B3"),
+            (Command.get_schedule_version(CTL), f"RP --- {CTL} {GW} --:------ 0006 004 00050009")]
+    results = []
+
+    async def main(mode):
+        loop = asyncio.get_running_loop()
+        pp = PortProtocol(lambda m: None, disable_qos=mode)
+
+        class Tr:
+            def get_extra_info(self, k, d=None):
+                return {"active_gwy": GW, "is_evofw3": True}.get(k, d)
+
+            def is_closing(self):
+                return False
+
+            def close(self):
+                pass
+
+            async def write_frame(self, frame, disable_tx_limits=False):
+                loop.call_later(0.005, lambda: pp.pkt_received(Packet(_dt.datetime.now(), "000 " + frame[:7] + GW + frame[16:])))
+                rp = next((r for c, r in cmds if str(c) == frame), None)
+                if rp:
+                    loop.call_later(0.055, lambda: pp.pkt_received(Packet(_dt.datetime.now(), "045 " + rp)))
+
+        pp.connection_made(Tr(), ramses=True)
+        await asyncio.sleep(0)
+        for cmd, rp in cmds:
+            try:
+                pkt = await asyncio.wait_for(pp.send_cmd(cmd, qos=QosParams(wait_for_reply=True, timeout=3, max_retries=1)), 8)
+                results.append((mode, cmd, "ok", pkt._hdr, str(pkt)))
+            except (exc.ProtocolError, TimeoutError) as err:
+                results.append((mode, cmd, "failed", None, f"{type(err).__name__}: {err}"[:160]))
+            await asyncio.sleep(0.1)
+        try:
+            pp.connection_lost(None)
+        except AssertionError:
+            pass
+
+    for mode in (None, False):
+        loop = asyncio.new_event_loop()
+        asyncio.set_event_loop(loop)
+        try:
+            loop.run_until_complete(main(mode))
+        except Exception as err:  # noqa: BLE001
+            ctx.violation(f"harness:default-mode-replies-raises:{type(err).__name__}", str(err)[:200], {"mode": str(mode)}, "input")
+        finally:
+            asyncio.set_event_loop(None)
+            loop.close()
+    for mode, cmd, how, hdr, what in results:
+        ctx.case(("default-mode-reply", str(mode), str(cmd)), True, "reply-through-the-real-protocol:" + ("default-qos-mode" if mode is None else "qos-forced-on"))
+        if how != "ok" or hdr != cmd.rx_header:
+            ctx.violation(f"reply-not-handed-back:{cmd.verb.strip()}|{cmd.code}:" + ("default-qos-mode" if mode is None else "qos-forced-on"),
+                          f"{cmd} sent with wait_for_reply (QoS {'as a Gateway sets it up' if mode is None else 'forced on'}); its reply came 50 ms after the echo; send_cmd ended with {what} "
+                          f"(header {hdr}, the command asks for {cmd.rx_header})", {"frame": str(cmd), "disable_qos": str(mode), "outcome": what}, "schedule")
+
+
 def through_the_protocol(ctx: Ctx) -> None:
     """The echo reaches the state machine through the REAL PortProtocol, device filters included: with the known list enforced (the controller and
     the gateway's real id listed, the 18:000730 placeholder not), frames whose echo still carries the placeholder -- the dongle rewrites the
@@ -527,6 +601,7 @@ def run(ctx: Ctx) -> None:
     oracle(ctx, 3 if thorough else 1)
     two_gateways(ctx)
     through_the_protocol(ctx)
+    default_mode_replies(ctx)
     ctx.obligation("correspondence:matching-rule-vs-real-WantEcho/WantRply", not MISMATCH, "correspondence",
                    f"{len(MISMATCH)} decisions differ; first: {MISMATCH[0]}" if MISMATCH else "")
 
